@@ -847,8 +847,18 @@ pub fn handle_calls(
         };
         let _ = tx.try_send(item);
     }
-    let tx = if reply_tx_gone { None } else { Some(tx) };
-    let rx = if mailbox_gone { None } else { Some(rx) };
+    let tx = if reply_tx_gone {
+        drop(tx);
+        None
+    } else {
+        Some(tx)
+    };
+    let rx = if mailbox_gone {
+        drop(rx);
+        None
+    } else {
+        Some(rx)
+    };
     let mut out = Vec::new();
     for c in calls {
         let r: Result<()> = match c {
